@@ -8,6 +8,7 @@ import numpy as np
 
 from .. import gen1
 from ..core import rs
+from . import c04_prefilled as pre
 from .base1 import Hist1Prop
 
 WIDTHS = [1.0, 10.0, 0.5, 0.25, 0.1, 0.3, 0.7, 1 / 3, 2.5, 1e-3, 1e3, 0.05]
@@ -235,7 +236,7 @@ def narrow_exhaustive(tier):
 
 class C04(Hist1Prop):
     ID = "C04"
-    N_QUICK = 290
+    N_QUICK = 350        # stream:prefilled takes every fifth case, stream:nd_narrow every eighth; the older streams keep about 250 cases
     N_THOROUGH = 10000
     RULE = ("histories of fill / fill_n (empty batches, NaNs, weights) on adaptive fixed-width 1-D histograms started empty "
             "(bin_shift / align options) or pre-filled; widths {1,10,.5,.25,.1,.3,.7,1/3,2.5,1e-3,1e3,.05}; values = decimal "
@@ -246,6 +247,12 @@ class C04(Hist1Prop):
             "fill points carried by float32 / float16 / int8..int32 arrays (C- / F-ordered, strided, read-only; float32 weights) "
             "in which one row holds, on one axis, the number of that type just below / just above an outer edge k*w+shift, the "
             "rest fitting or growing the other side / another axis. "
+            "stream:prefilled (one case in five): histograms that exist WITH contents before the first fill, their bins described "
+            "by FixedWidthBinning(min=, bin_width=, bin_count=) / (bin_times_min=, bin_shift=) / as_fixed_width() of numpy and "
+            "static binnings / h1|h(data, 'fixed_width', adaptive=True[, align=False]), 1-3 dimensions, minima k*w in floating "
+            "point, decimal literals and their one-ulp neighbours; values = the minimum, its neighbours, the multiple of the "
+            "width beside it, the last edge, far values; the first edge must be the minimum asked for, earlier edges stay edges "
+            "bit for bit, each cell holds its starting content plus what was entered inside its intervals, no spare bin. "
             "non-trivial = the bins grew at least twice; distinct = hash of the op list")
     FIELDS = {"bins", "freq", "err2", "under", "over", "total", "keep", "binning"}
     EXTRA_TRUST = ["grid edges and cell estimates are floating-point computations: the theorems hold for every FloatOps "
@@ -253,6 +260,8 @@ class C04(Hist1Prop):
                    "implementation's own edges"]
 
     def gen_case(self, rng, k, tier):
+        if pre.ENABLE_PREFILLED and k % pre.PRE_EVERY == pre.PRE_EVERY - 1:
+            return pre.gen(rng)
         if ENABLE_ND_NARROW and k % 8 == 7:
             # one case in eight (chosen by the case number, so that the older streams keep the cases they had)
             return narrow_case(narrow_params(rng))
@@ -339,20 +348,40 @@ class C04(Hist1Prop):
                 ops[-1]["vk"] = src["vk"]
         return {"kind": "hist1", "fuel": 64, "ops": ops, "tags": [], "src": src}
 
+    # ---- stream:prefilled (c04_prefilled.py): its own start operation on the implementation, its own model translation
+    def run_impl(self, case):
+        if pre.is_pre(case):
+            return pre.run_impl(case)
+        return super().run_impl(case)
+
     def model_case(self, case, io):
+        if pre.is_pre(case):
+            return pre.model_case(case)
         if case.get("kind") == "histn" and case["src"].get("klass") not in (None, "HistogramND"):
             return None         # the driver has no transformed classes in its op language: oracle only
         return case
 
+    def diff(self, case, model_ok, io):
+        if pre.is_pre(case):
+            model_ok = pre.model_outs(case, model_ok)
+        return super().diff(case, model_ok, io)
+
+    def exhaustive_cases(self, tier):
+        """stream:prefilled, enumerated (every minimum k*w of a window) and stream:nd_narrow, enumerated"""
+        return (pre.small_scope(tier) if pre.ENABLE_PREFILLED else []) + (list(narrow_exhaustive(tier)) if ENABLE_ND_NARROW else [])
+
     def neighbours(self, case):
+        if pre.is_pre(case):
+            return list(pre.neighbours(case))
         if case.get("kind") == "histn" and case["src"].get("narrow"):
             return narrow_neighbours(case["src"]["narrow"])
         return []
 
-    def exhaustive_cases(self, tier):
-        return list(narrow_exhaustive(tier)) if ENABLE_ND_NARROW else []
 
     def shrink_candidates(self, case):
+        if pre.is_pre(case):
+            yield from pre.shrink(case)
+            return
         if case.get("kind") == "histn":
             from . import nd_parts
             yield from nd_parts.c04_shrink(case)
@@ -372,6 +401,8 @@ class C04(Hist1Prop):
                     yield self.build(s2)
 
     def oracle(self, case, io):
+        if pre.is_pre(case):
+            return pre.oracle(case, io)
         if case.get("kind") == "histn":
             from . import nd_parts
             return nd_parts.c04_oracle(case, io)
@@ -441,6 +472,8 @@ class C04(Hist1Prop):
         return fails[:6]
 
     def nontrivial(self, case, io):
+        if pre.is_pre(case):
+            return pre.nontrivial(case, io)
         if case.get("kind") == "histn":
             return len({tuple(o["regs"][0]["shape"]) for o in io["outs"] if o["regs"] and o["regs"][0]}) >= 3
         sizes = {len(o["regs"][0]["bins"]) for o in io["outs"] if o["regs"] and o["regs"][0]}
